@@ -258,10 +258,9 @@ class _Reqs:
     def req_epoch_constant(self):
         P, W = self.P, self.W
         n = 0
-        for name in ("classic_midp", "rfc_midp"):
-            fn = P.fns.get("roughenough::key::online::OnlineKey::" + name)
-            if fn is None:
-                return False, name + " missing"
+        # every conversion of the clock in OnlineKey (in the two midpoint helpers, or hoisted into make_srep) is `now.duration_since(UNIX_EPOCH)`
+        for fn in [f for f in P.fns.values() if f.impl_self == "roughenough::key::online::OnlineKey" and not f.derived]:
+            name = fn.path.split("::")[-1]
             ev = W.ev(fn.path)
             for bb, t in fn.calls():
                 if callee_name(t["fn"].get("path", "")) == "duration_since":
@@ -271,7 +270,7 @@ class _Reqs:
                     if not recv_is_time_param or not zero or "SystemTime" not in str(a[1]):
                         return False, "%s computes duration_since(%s)" % (name, values.fmt(a[1]))
                     n += 1
-        return n == 2, "both midpoints are now.duration_since(UNIX_EPOCH)"
+        return n >= 1, "the midpoint is computed from now.duration_since(UNIX_EPOCH) (%d conversion site(s))" % n
 
     def req_server_thread_named(self):
         P, W = self.P, self.W
